@@ -146,6 +146,24 @@ def edit_power(path, kind, rng):
                 else:
                     new.append(r)
             rows = new
+    elif kind.startswith('renumber-'):
+        # the right number of items, the same in every cell, but not numbered
+        # 1..N: the last item of one component carries the number N + 1 (or
+        # the items are numbered from 2)
+        _, how, comp = kind.split('-')
+        code = {'pins': '1', 'duct': '2', 'cool': '3'}[comp]
+        mine = [r for r in rows if r.split(',')[1] == code]
+        nmax = max(int(r.split(',')[4]) for r in mine)
+        new = []
+        for r in rows:
+            p = r.split(',')
+            if p[1] == code:
+                if how == 'last' and int(p[4]) == nmax:
+                    p[4] = str(nmax + 1)
+                elif how == 'shift':
+                    p[4] = str(int(p[4]) + 1)
+            new.append(','.join(p))
+        rows = new
     elif kind.startswith('overlap-'):
         # one component has two regions that overlap: a second region that
         # covers the upper half of its first cell and ends where that cell
@@ -584,7 +602,9 @@ def targeted(rng, base, tier):
                'count-lumped-cool', 'count-lumped-duct',
                'cells-pins', 'cells-duct', 'cells-cool',
                'overlap-hi-pins', 'overlap-hi-duct', 'overlap-hi-cool',
-               'overlap-lo-pins', 'overlap-lo-cool'):
+               'overlap-lo-pins', 'overlap-lo-cool',
+               'renumber-last-pins', 'renumber-shift-pins',
+               'renumber-last-duct', 'renumber-last-cool'):
         add('power-' + ed, lambda c, t, r: None, ['PowerProfile'], badpow,
             pedit=ed)
     # overlapping regions of one component in a profile with one power cell
